@@ -530,14 +530,34 @@ def pattern_cjmp_i8(context, tree, lhs, rhs):
     emit_cmp(context, Cmpb, lhs, rhs, op, true_tgt, false_tgt)
 
 
-def emit_cmp(context, cmp_ins, lhs, rhs, op, true_tgt, false_tgt):
+@isa.pattern("stm", "CJMPU16(reg, reg)", size=10)
+def pattern_cjmp_u16(context, tree, lhs, rhs):
+    op, true_tgt, false_tgt = tree.value
+    emit_cmp(context, Cmp, lhs, rhs, op, true_tgt, false_tgt, signed=False)
+
+
+@isa.pattern("stm", "CJMPU8(reg, reg)", size=10)
+def pattern_cjmp_u8(context, tree, lhs, rhs):
+    op, true_tgt, false_tgt = tree.value
+    emit_cmp(context, Cmpb, lhs, rhs, op, true_tgt, false_tgt, signed=False)
+
+
+def emit_cmp(
+    context, cmp_ins, lhs, rhs, op, true_tgt, false_tgt, signed=True
+):
+    if signed:
+        less, greater_equal = Jl, Jge
+    else:
+        # Unsigned compare: carry clear means lower, carry set
+        # means higher or same.
+        less, greater_equal = Jnc, Jc
     opnames = {
-        "<": (Jl, False),
-        ">": (Jl, True),
+        "<": (less, False),
+        ">": (less, True),
         "==": (Jz, False),
         "!=": (Jne, False),
-        ">=": (Jge, False),
-        "<=": (Jge, True),
+        ">=": (greater_equal, False),
+        "<=": (greater_equal, True),
     }
     op_ins, swap_ops = opnames[op]
     if swap_ops:
